@@ -1,38 +1,45 @@
-(** C16 for the elvish generator model: the transcription of elvish.rs computes the table
+(** C16 for the PowerShell generator model: the transcription of powershell.rs computes the table
     specification [PathTable.gi] of its format, is total on built trees, deterministic, and its
-    table covers the tree at every depth. *)
+    table covers the tree at every depth -- for every [is_uppercase]. *)
 From ClapModel Require Import Base.Bytes Complete.AotTree Complete.TextTree Complete.BashModel Complete.AotProofs
-  Complete.BashProofs Escape.EscapeModel Complete.PathTable Complete.ElvishModel.
+  Complete.BashProofs Escape.EscapeModel Complete.PathTable Complete.PowershellModel.
 From Coq Require Import String.
 Open Scope N_scope.
 Open Scope list_scope.
 
-(** the five text shapes of elvish.rs *)
-Definition el_short (n tip : bytes) : bytes := preamble ++ lit "-" ++ n ++ lit " '" ++ tip ++ lit "'".
-Definition el_long (n tip : bytes) : bytes := preamble ++ lit "--" ++ n ++ lit " '" ++ tip ++ lit "'".
-Definition el_sub (n tip : bytes) : bytes := preamble ++ n ++ lit " '" ++ tip ++ lit "'".
-Definition el_fmt : fmt := mkFmt escape_help el_short el_long el_sub case_block.
+(** the five text shapes of powershell.rs *)
+Definition ps_short (up : N -> bool) (n tip : bytes) : bytes :=
+  preamble ++ lit "'-" ++ n ++ lit "', '-" ++ n ++ (if char_is_uppercase up n then lit " " else []) ++
+  lit "', [CompletionResultType]::ParameterName, '" ++ tip ++ lit "')".
+Definition ps_long (n tip : bytes) : bytes :=
+  preamble ++ lit "'--" ++ n ++ lit "', '--" ++ n ++ lit "', [CompletionResultType]::ParameterName, '" ++ tip ++ lit "')".
+Definition ps_sub (n tip : bytes) : bytes :=
+  preamble ++ lit "'" ++ n ++ lit "', '" ++ n ++ lit "', [CompletionResultType]::ParameterValue, '" ++ tip ++ lit "')".
+Definition ps_fmt (up : N -> bool) : fmt := mkFmt escape_help (ps_short up) ps_long ps_sub case_block.
+
+Section Up.
+Variable up : N -> bool.
 
 (** ---- the transcription computes the specification ---- *)
-Lemma spell_lines_eq dash mk o h :
+Lemma short_lines_eq o h :
   (o = None \/ exists s l, o = Some (s :: l)) ->
-  (forall n tip, mk n tip = preamble ++ dash ++ n ++ lit " '" ++ tip ++ lit "'") ->
-  spell_lines dash o h = Some (spell_entries el_fmt mk o h).
-Proof.
-  intros [->|(s & l & ->)] Hmk; [reflexivity|].
-  unfold spell_lines, spell_entries. cbn [idx0 hd f_tip el_fmt]. f_equal. f_equal.
-  apply map_ext. intros n. now rewrite Hmk.
-Qed.
+  short_lines up o h = Some (spell_entries (ps_fmt up) (ps_short up) o h).
+Proof. intros [->|(s & l & ->)]; reflexivity. Qed.
 
-Lemma arg_lines_eq x : arg_lines x = Some (arg_entries el_fmt x).
+Lemma long_lines_eq o h :
+  (o = None \/ exists s l, o = Some (s :: l)) ->
+  long_lines o h = Some (spell_entries (ps_fmt up) ps_long o h).
+Proof. intros [->|(s & l & ->)]; reflexivity. Qed.
+
+Lemma arg_lines_eq x : generate_aliases up x = Some (arg_entries (ps_fmt up) x).
 Proof.
-  unfold arg_lines, arg_entries.
-  rewrite (spell_lines_eq (lit "-") (f_short el_fmt) _ _ (short_spellings_shape (fst x))) by reflexivity.
-  rewrite (spell_lines_eq (lit "--") (f_long el_fmt) _ _ (long_spellings_shape (fst x))) by reflexivity.
+  unfold generate_aliases, arg_entries.
+  rewrite (short_lines_eq _ _ (short_spellings_shape (fst x))).
+  rewrite (long_lines_eq _ _ (long_spellings_shape (fst x))).
   reflexivity.
 Qed.
 
-Lemma sub_lines_eq x : sub_lines x = sub_entries el_fmt x.
+Lemma sub_lines_eq x : sub_lines x = sub_entries (ps_fmt up) x.
 Proof. reflexivity. Qed.
 
 Lemma command_names_eq p prev : c_bin p <> None -> command_names p prev = Some (cnames p prev).
@@ -42,15 +49,15 @@ Proof.
 Qed.
 
 Lemma generate_inner_unfold p t prev :
-  generate_inner p t prev =
+  generate_inner up p t prev =
   match command_names p prev with
   | None => None
   | Some names =>
-      match map_opt arg_lines (get_opts_t p t), map_opt arg_lines (flags_t p t) with
+      match map_opt (generate_aliases up) (get_opts_t p t), map_opt (generate_aliases up) (flags_t p t) with
       | Some lo, Some lf =>
           let completions := List.concat lo ++ List.concat lf ++ List.concat (map sub_lines (zsubs p t)) in
           match map_opt (fun x : cmd * ttree =>
-                           match map_opt (fun cn => generate_inner (fst x) (snd x) cn) names with
+                           match map_opt (fun cn => generate_inner up (fst x) (snd x) cn) names with
                            | Some a => Some (List.concat a)
                            | None => None
                            end) (zsubs p t) with
@@ -63,13 +70,13 @@ Lemma generate_inner_unfold p t prev :
 Proof.
   destruct p as [n al args subs bin h v s g]. cbn [generate_inner].
   destruct (command_names _ prev) as [names|]; [|reflexivity].
-  destruct (map_opt arg_lines (get_opts_t _ t)) as [lo|]; [|reflexivity].
-  destruct (map_opt arg_lines (flags_t _ t)) as [lf|]; [|reflexivity].
+  destruct (map_opt (generate_aliases up) (get_opts_t _ t)) as [lo|]; [|reflexivity].
+  destruct (map_opt (generate_aliases up) (flags_t _ t)) as [lf|]; [|reflexivity].
   cbv zeta. unfold zsubs at 2. cbn [c_subs].
   match goal with |- match ?go subs (tt_subs t) with _ => _ end = _ => set (G := go) end.
   assert (E : forall ts, G subs ts =
     match map_opt (fun x : cmd * ttree =>
-                     match map_opt (fun cn => generate_inner (fst x) (snd x) cn) names with
+                     match map_opt (fun cn => generate_inner up (fst x) (snd x) cn) names with
                      | Some a => Some (List.concat a)
                      | None => None
                      end) (zip_pad subs ts tt_none) with
@@ -78,104 +85,111 @@ Proof.
     end).
   { induction subs as [|sc subs IH]; intros ts; [reflexivity|].
     unfold G; fold G. cbn [zip_pad]. rewrite map_opt_cons. cbn [fst snd]. rewrite IH.
-    destruct (map_opt (fun cn => generate_inner sc (hd tt_none ts) cn) names); [|reflexivity].
+    destruct (map_opt (fun cn => generate_inner up sc (hd tt_none ts) cn) names); [|reflexivity].
     destruct (map_opt _ (zip_pad subs (tl ts) tt_none)); reflexivity. }
   rewrite E. destruct (map_opt _ (zip_pad subs (tt_subs t) tt_none)); reflexivity.
 Qed.
 
 Theorem generate_inner_spec : forall p, all_bins p ->
-  forall t prev, generate_inner p t prev = Some (gi el_fmt p t prev).
+  forall t prev, generate_inner up p t prev = Some (gi (ps_fmt up) p t prev).
 Proof.
   induction p as [n al args subs bin h v s g IH] using cmd_ind'. intros Hb t prev.
   set (p := mkCmd n al args subs bin h v s g) in *.
-  rewrite generate_inner_unfold, (gi_unfold el_fmt p t prev).
+  rewrite generate_inner_unfold, (gi_unfold (ps_fmt up) p t prev).
   rewrite (command_names_eq p prev) by (apply Hb; now left).
-  rewrite (map_opt_fun arg_lines (arg_entries el_fmt)) by (intros; apply arg_lines_eq).
-  rewrite (map_opt_fun arg_lines (arg_entries el_fmt)) by (intros; apply arg_lines_eq).
+  rewrite (map_opt_fun (generate_aliases up) (arg_entries (ps_fmt up))) by (intros; apply arg_lines_eq).
+  rewrite (map_opt_fun (generate_aliases up) (arg_entries (ps_fmt up))) by (intros; apply arg_lines_eq).
   cbv zeta.
   rewrite (map_opt_fun _ (fun x : cmd * ttree =>
-             List.concat (map (fun cn => gi el_fmt (fst x) (snd x) cn) (cnames p prev)))).
+             List.concat (map (fun cn => gi (ps_fmt up) (fst x) (snd x) cn) (cnames p prev)))).
   - reflexivity.
   - intros x Hx. assert (Hs : In (fst x) subs) by exact (zip_pad_in_fst _ _ _ _ Hx).
     rewrite Forall_forall in IH.
-    rewrite (map_opt_fun _ (fun cn => gi el_fmt (fst x) (snd x) cn)); [reflexivity|].
+    rewrite (map_opt_fun _ (fun cn => gi (ps_fmt up) (fst x) (snd x) cn)); [reflexivity|].
     intros cn _. apply (IH _ Hs). exact (all_bins_sub p _ Hb Hs).
 Qed.
 
-(** ---- [Elvish::generate] ---- *)
+(** ---- [PowerShell::generate] ---- *)
 Theorem generate_spec c t bin : c_bin c = Some bin -> bins_built c ->
-  generate c t = Some (render bin (gi el_fmt c t [])).
+  generate up c t = Some (render bin (gi (ps_fmt up) c t [])).
 Proof.
   intros Hbin Hb. unfold generate. rewrite Hbin, generate_inner_spec; [reflexivity|].
   apply all_bins_intro; [congruence|exact Hb].
 Qed.
 
 (** total on every built tree *)
-Theorem generate_total c b t : build c = Some b -> c_bin b <> None -> exists s, generate b t = Some s.
+Theorem generate_total c b t : build c = Some b -> c_bin b <> None -> exists s, generate up b t = Some s.
 Proof.
   intros Hbuild Hbin. destruct (c_bin b) as [bin|] eqn:E; [|congruence].
   eexists. apply generate_spec; [exact E|exact (build_bins_built _ _ Hbuild)].
 Qed.
 
 (** deterministic: a function of the command and its texts *)
-Theorem generate_elvish_deterministic c1 c2 t1 t2 b1 b2 :
-  c1 = c2 -> t1 = t2 -> b1 = b2 -> generate_elvish c1 t1 b1 = generate_elvish c2 t2 b2.
+Theorem generate_powershell_deterministic c1 c2 t1 t2 b1 b2 :
+  c1 = c2 -> t1 = t2 -> b1 = b2 -> generate_powershell up c1 t1 b1 = generate_powershell up c2 t2 b2.
 Proof. intros -> -> ->. reflexivity. Qed.
 
 (** ---- coverage, every depth ---- *)
 
-Theorem elvish_covers c t bin ws ns n :
+Theorem powershell_covers c t bin ws ns n :
   c_bin c = Some bin -> bin <> [] -> bins_built c -> reach c ws ns n ->
   exists script tn,
-    generate c t = Some script /\
-    infix (case_block (path_key bin ws) (entries el_fmt n tn)) script /\
+    generate up c t = Some script /\
+    infix (case_block (path_key bin ws) (entries (ps_fmt up) n tn)) script /\
     (forall a s0 s, In a (c_args n) -> a_is_positional a = false -> a_short a = Some s0 ->
        (s = s0 \/ In (s, true) (a_short_aliases a)) ->
-       exists tip, infix (el_short s tip) (entries el_fmt n tn)) /\
+       exists tip, infix (ps_short up s tip) (entries (ps_fmt up) n tn)) /\
     (forall a l0 l, In a (c_args n) -> a_is_positional a = false -> a_long a = Some l0 ->
        (l = l0 \/ In (l, true) (a_aliases a)) ->
-       exists tip, infix (el_long l tip) (entries el_fmt n tn)) /\
+       exists tip, infix (ps_long l tip) (entries (ps_fmt up) n tn)) /\
     (forall sc w, In sc (c_subs n) -> In w (get_name_and_visible_aliases sc) ->
-       exists tip, infix (el_sub w tip) (entries el_fmt n tn)).
+       exists tip, infix (ps_sub w tip) (entries (ps_fmt up) n tn)).
 Proof.
   intros Hbin Hne Hb Hr.
   assert (Hk : In bin (cnames c [])) by (unfold cnames; cbn [is_nil]; rewrite Hbin; now left).
-  destruct (gi_reach el_fmt c ws ns n Hr t [] bin Hk Hne) as [tn Htn].
-  exists (render bin (gi el_fmt c t [])), tn. split; [apply generate_spec; assumption|]. split.
-  - unfold render. do 7 apply infix_app_r. apply infix_app_l. exact Htn.
+  destruct (gi_reach (ps_fmt up) c ws ns n Hr t [] bin Hk Hne) as [tn Htn].
+  exists (render bin (gi (ps_fmt up) c t [])), tn. split; [apply generate_spec; assumption|]. split.
+  - unfold render. do 9 apply infix_app_r. apply infix_app_l. exact Htn.
   - repeat split.
     + intros a s0 s Ha Hpos Hs Hin. destruct (short_spellings a s0 s Hs Hin) as (names & Hn & Hsn).
-      exact (entries_short el_fmt n tn a names s Ha Hpos Hn Hsn).
+      exact (entries_short (ps_fmt up) n tn a names s Ha Hpos Hn Hsn).
     + intros a l0 l Ha Hpos Hl Hin. destruct (long_spellings a l0 l Hl Hin) as (names & Hn & Hln).
-      exact (entries_long el_fmt n tn a names l Ha Hpos Hn Hln).
-    + intros sc w Hsc Hw. exact (entries_sub el_fmt n tn sc w Hsc Hw).
+      exact (entries_long (ps_fmt up) n tn a names l Ha Hpos Hn Hln).
+    + intros sc w Hsc Hw. exact (entries_sub (ps_fmt up) n tn sc w Hsc Hw).
 Qed.
 
+End Up.
+
 (** ---- non-vacuity and the boundaries of the class ---- *)
+(** [char::is_uppercase] on ASCII (any function would do) *)
+Definition ascii_upper (c : N) : bool := (65 <=? c) && (c <=? 90).
+
 (** the script of that tree, with quotes in the texts *)
-Example elvish_example_script :
-  exists s, generate_elvish ex_tree ex_texts (lit "p") = Some s /\
-    infixb (lit "&'p;ab'= {") s = true /\ infixb (lit "cand -t 'say ''hi'''") s = true /\
-    infixb (lit "cand ab 'it''s'") s = true /\ infixb (lit "cand -u ") s = false.
+Example powershell_example_script :
+  exists s, generate_powershell ascii_upper ex_tree ex_texts (lit "p") = Some s /\
+    infixb (lit "'p;ab' {") s = true /\
+    infixb (lit "'-t', '-t', [CompletionResultType]::ParameterName, 'say ''hi''')") s = true /\
+    infixb (lit "'-h', '-h', [CompletionResultType]::ParameterName, 'Print help')") s = true /\
+    infixb (lit "'ab', 'ab', [CompletionResultType]::ParameterValue, 'it''s')") s = true /\
+    infixb (lit "'-u'") s = false.
 Proof. eexists. split; [vm_compute; reflexivity|]. vm_compute. repeat split. Qed.
 
-(** finding alias-without-primary is a boundary of the class: a visible short alias of an option
-    without a short has no entry in the script, whatever the tooltip *)
-Lemma elvish_alias_without_primary_refuted :
+(** finding alias-without-primary is a boundary of the class *)
+Lemma powershell_alias_without_primary_refuted :
   exists c t bin a s script, In a (c_args c) /\ a_is_positional a = false /\ In (s, true) (a_short_aliases a) /\
-    generate_elvish c t bin = Some script /\ forall tip, ~ infix (el_short s tip) script.
+    generate_powershell ascii_upper c t bin = Some script /\ forall tip, ~ infix (ps_short ascii_upper s tip) script.
 Proof.
   exists alias_only_cmd, tt_none, [112], alias_only_arg, [120]. eexists.
   split; [left; reflexivity|]. split; [reflexivity|]. split; [left; reflexivity|].
   split; [vm_compute; reflexivity|].
-  intros tip H. unfold el_short in H. rewrite 3!app_assoc in H. apply infix_prefix in H.
+  intros tip H. unfold ps_short in H. rewrite 3!app_assoc in H. apply infix_prefix in H.
   apply infixb_complete in H. vm_compute in H. discriminate.
 Qed.
 
 (** finding values-not-in-powershell-elvish: possible values are never written *)
-Lemma elvish_values_refuted :
+Lemma powershell_values_refuted :
   exists c t bin a v script, In a (c_args c) /\ possible_values a = Some [mkPv v false] /\
-    generate_elvish c t bin = Some script /\ ~ infix v script.
+    generate_powershell ascii_upper c t bin = Some script /\ ~ infix v script.
 Proof.
   exists values_cmd, tt_none, [112], values_arg, (lit "zzz"). eexists.
   split; [left; reflexivity|]. split; [reflexivity|].
@@ -183,10 +197,9 @@ Proof.
   intros H. apply infixb_complete in H. vm_compute in H. discriminate.
 Qed.
 
-(** the hypothesis [bin <> []]: with an empty bin name the children are keyed by their own bin name
-    ("s"), not by the [;]-joined path the script computes (";s") *)
-Lemma elvish_empty_bin_refuted :
-  exists c t sc script, generate_elvish c t [] = Some script /\ In sc (c_subs c) /\
+(** the hypothesis [bin <> []] *)
+Lemma powershell_empty_bin_refuted :
+  exists c t sc script, generate_powershell ascii_upper c t [] = Some script /\ In sc (c_subs c) /\
     forall es, ~ infix (case_block (path_key [] [c_name sc]) es) script.
 Proof.
   exists (mkCmd (lit "p") [] [] [cmd_new (lit "s")] None false false sets0 sets0), tt_none, (cmd_new (lit "s")). eexists.
